@@ -10529,7 +10529,7 @@ func (l *Lowerer) resolveNamedType(t *parser.NamedType) (ir.TypeHandle, error) {
 	}
 
 	// Texture types without type parameters (e.g., texture_depth_2d, texture_depth_2d_array)
-	if len(t.Name) >= 7 && t.Name[:7] == "texture" {
+	if isTextureTypeName(t.Name) {
 		imgType := l.parseTextureType(t)
 		// When encountering texture_external, generate the special param/transfer types
 		// that backends need for lowering external textures to ordinary textures.
@@ -10604,7 +10604,7 @@ func (l *Lowerer) resolveParameterizedType(t *parser.NamedType) (ir.TypeHandle, 
 	}
 
 	// Texture types: texture_2d<f32>, texture_storage_2d<rgba8unorm, write>, etc.
-	if len(t.Name) >= 7 && t.Name[:7] == "texture" {
+	if isTextureTypeName(t.Name) {
 		imgType := l.parseTextureType(t)
 		if imgType.Class == ir.ImageClassExternal {
 			l.generateExternalTextureTypes()
@@ -13629,6 +13629,19 @@ func (l *Lowerer) isOpaqueResourceType(handle ir.TypeHandle) bool {
 
 // parseTextureType parses a texture type specification and returns an ImageType.
 // Handles: texture_2d<f32>, texture_storage_2d<rgba8unorm, write>, texture_depth_2d, etc.
+// isTextureTypeName reports whether name is one of the predeclared texture types.
+// Any other name, even one that starts with "texture", is a user type (or undeclared).
+func isTextureTypeName(name string) bool {
+	switch name {
+	case "texture_1d", "texture_2d", "texture_2d_array", "texture_3d", "texture_cube", "texture_cube_array",
+		"texture_multisampled_2d", "texture_depth_multisampled_2d", "texture_external",
+		"texture_storage_1d", "texture_storage_2d", "texture_storage_2d_array", "texture_storage_3d",
+		"texture_depth_2d", "texture_depth_2d_array", "texture_depth_cube", "texture_depth_cube_array":
+		return true
+	}
+	return false
+}
+
 func (l *Lowerer) parseTextureType(t *parser.NamedType) ir.ImageType {
 	name := t.Name
 	img := ir.ImageType{
